@@ -112,6 +112,29 @@ func addStats(o *WorkerOut, res *RunResult) {
 	f["F2_preemption"] += int64(res.Stats.Preemptions)
 	f["F3_clock_preempt"] += int64(res.Stats.ClockPreempt)
 	f["F9_pool_drop"] += int64(res.Stats.PoolDrops)
+	// faults that are part of the generated program: counted when the run executed them
+	for _, t := range res.Prog.Tasks {
+		for _, op := range t {
+			switch op.K {
+			case "closeroot", "m3close":
+				f["F4_close_injected_by_a_task"]++
+			case "tabandon":
+				f["F6_message_abandoned_op"]++
+			}
+		}
+	}
+	if res.Prog.Cfg.Faults.CloseErr && res.Prog.Cfg.Faults.HasCloser {
+		f["F8_reporter_close_error"]++
+	}
+	if res.Prog.Cfg.Faults.PanicCB {
+		f["F8_panicking_callback_configured"]++
+	}
+	if res.Prog.Cfg.CPUs == 1 {
+		f["F10_single_registry_shard"]++
+	}
+	if m := res.Prog.Cfg.M3; m != nil && m.MaxQueue > 0 && m.MaxQueue <= 4 {
+		f["F7_tiny_queue_configured"]++
+	}
 	f["F11_map_order_permuted"] += int64(res.Stats.MapPermuted)
 	p := o.Probes
 	p["overlap_passes"] += int64(res.Probes.OverlapPasses)
